@@ -23,6 +23,7 @@ import (
 	"sync"
 	"testing"
 	"time"
+	"verifharness/internal/netx"
 
 	"pgregory.net/rapid"
 )
@@ -71,6 +72,7 @@ type violation struct {
 type subStats struct {
 	Evaluations int64            `json:"evaluations"`
 	Skipped     int64            `json:"skipped"`
+	EnvRetries  int64            `json:"env_retries,omitempty"`
 	NonTrivial  int64            `json:"nontrivial"`
 	Classes     map[string]int64 `json:"classes"`
 	Excluded    map[string]int64 `json:"excluded_known"`
@@ -439,8 +441,26 @@ func trunc(raw []byte) json.RawMessage {
 func (s *Sub[C]) Once(c C) *Failure {
 	o := &Obs{}
 	f := s.safeRun(c, o)
+	// a failure whose text names exhaustion of the sandbox itself (no free loopback port, no file
+	// descriptors) says nothing about reservoir: wait for the machine to recover and run the case again;
+	// if it persists the case is dropped and the run is reported inconclusive, never as a violation
+	for i := 0; f != nil && netx.IsEnv(f.What) && i < len(envWaits); i++ {
+		time.Sleep(envWaits[i])
+		o = &Obs{}
+		f = s.safeRun(c, o)
+		mu.Lock()
+		sub(s.Name).EnvRetries++
+		mu.Unlock()
+	}
+	if f != nil && netx.IsEnv(f.What) {
+		Incomplete("%s: sandbox resource exhaustion persisted over %d retries: %.300s", s.Name, len(envWaits), f.What)
+		o.Skip = true
+		f = nil
+	}
 	return s.account(c, o, f)
 }
+
+var envWaits = []time.Duration{2 * time.Second, 10 * time.Second, 30 * time.Second, 45 * time.Second}
 
 // Enumerate runs the sub-check over an explicit enumeration; it continues past
 // failures with an already-seen signature and reports each distinct signature once.
